@@ -1,4 +1,9 @@
 import Driver.Util
+import MmtkModel.Model.SpaceDescriptor
+import Driver.Layout.Desc
+import Driver.Layout.CSM
+import Driver.Layout.Resolve
+import Driver.Layout.Map32
 /-! package `Layout` (see CONVENTIONS.md): register components in `step`.
 `cfg` lines this package cares about may be matched here too (they must answer "ok");
 every package sees every `cfg` line. -/
@@ -7,16 +12,29 @@ open Driver
 
 structure St where
   debug : Bool := true
+  /-- the process-global `VMLayout` (`cfg layout 32|64`) -/
+  layout : Mmtk.Layout.VMLayout := Mmtk.Layout.layout64
+  csm : CSM.St := {}
+  resolve : Resolve.St := {}
+  map32 : Map32.DSt := {}
 
 /-- `none` = not a component of this package. -/
 def step (st : St) (toks : List String) : Option (St × String) :=
   match toks with
+  | "desc" :: args => some (st, Desc.run st.layout st.debug args)
+  | "map32" :: args =>
+    let (c, o) := Map32.step st.debug st.map32 args; some ({ st with map32 := c }, o)
+  | "resolve" :: args =>
+    let (c, o) := Resolve.step st.layout st.debug st.resolve args; some ({ st with resolve := c }, o)
+  | "csm" :: args => let (c, o) := CSM.step st.csm args; some ({ st with csm := c }, o)
   | _ => none
 
 /-- `cfg` lines are broadcast to every package. -/
 def cfg (st : St) (toks : List String) : St :=
   match toks with
   | ["debug", v] => { st with debug := v == "1" }
+  | ["layout", "32"] => { st with layout := Mmtk.Layout.layout32 }
+  | ["layout", "64"] => { st with layout := Mmtk.Layout.layout64 }
   | _ => st
 
 end Driver.Layout
